@@ -21,6 +21,13 @@ def run(chk, pid, tier, seed, replay):
         r = subprocess.run(base + ["--tier", "quick", "--seed", "1", "--out", out, "--replay", os.path.join(chk.ROOT, k["replay"])], env=env, capture_output=True, text=True)
         if r.returncode == 1: print(f"KNOWN-FINDING: property={pid} {k['what']}")
         else: print(f"NOTE: known finding {k['id']} no longer reproduces from {k['replay']} (exit {r.returncode})")
+    # repaired findings: their stored programs are regression inputs that must pass
+    for k in [k for k in chk.load_known() if k["property"] == pid and k["status"] == "fixed" and k.get("regress")]:
+        rp = os.path.join(chk.ROOT, k["regress"])
+        r = subprocess.run(base + ["--tier", "quick", "--seed", "1", "--out", out, "--replay", rp], env=env, capture_output=True, text=True)
+        if r.returncode == 1:
+            print(f"VIOLATION property={pid} replay={rp}"); print(f"  regression program of repaired finding {k['id']} fails again: {k['what']}"[:500])
+            chk.write_evidence(pid, tier, seed, time.time() - t0, {"evaluations": 1, "distinct_nontrivial": 0, "rule": "regression programs of repaired findings", "samples": [k["id"]]}, 1, []); return 1
     r = subprocess.run(base + ["--tier", tier, "--seed", str(seed), "--out", out], env=env, capture_output=True, text=True)
     sys.stdout.write("".join(l + "\n" for l in r.stdout.splitlines() if l.startswith("CXX-MISMATCH"))[:3000])
     try: res = json.load(open(out)); os.remove(out)
